@@ -341,7 +341,7 @@ class CParser:
                     or len(spec["type"][-1].names) != 1
                     or not self._is_type_in_scope(spec["type"][-1].names[0])
                 ):
-                    coord = "?"
+                    coord = self.clex.filename
                     for t in spec["type"]:
                         if hasattr(t, "coord"):
                             coord = t.coord
